@@ -230,6 +230,8 @@ func (s *FastModularNetworkSolver) recursiveActivateNode(currentNode int) (res b
 	} else {
 		res = true
 	}
+	// the pre-activation sum is consumed: leave the scratch buffer zeroed, as forwardStep expects to find it
+	s.neuronSignalsBeingProcessed[currentNode] = 0
 	return res, err
 }
 
